@@ -92,18 +92,18 @@ CORPUS = [
         self._finished = True
 """)], props=["C07"], note="DESIGN 4.7: flag placement is not an obligation"),
     # ------------------------------------------------------------------ C05 strict decoding
-    B("c05-ed-length-check-removed", ["C05"], [(ED, """    if len(s) != 32:
+    B("c05-ed-length-check-removed", ["C05", "C02", "C15"], [(ED, """    if len(s) != 32:
         raise ValueError("encoded point must be exactly 32 bytes")
     unclamped = int(binascii.hexlify(s[::-1]), 16)
 """, """    unclamped = int(binascii.hexlify(s[:32][::-1]), 16)
 """)], note="F1 part 1 re-introduced"),
-    B("c05-ed-y-range-removed", ["C05"], [(ED, """    if y >= Q:
+    B("c05-ed-y-range-removed", ["C05", "C02"], [(ED, """    if y >= Q:
         raise ValueError("non-canonical point encoding: y >= Q")
 """, "")], note="F1 part 2 re-introduced"),
     B("c05-ed-sign-on-zero-accepted", ["C05"], [(ED, """        if x == 0:
             raise ValueError("non-canonical point encoding: sign bit on x=0")
 """, "")], note="F1 part 3 re-introduced"),
-    B("c05-int-length-assert-removed", ["C05"], [(GR, """        assert isinstance(b, bytes)
+    B("c05-int-length-assert-removed", ["C05", "C02", "C15"], [(GR, """        assert isinstance(b, bytes)
         assert len(b) == self.element_size_bytes
         i = bytes_to_number(b)
         if i <= 0""", """        assert isinstance(b, bytes)
@@ -210,7 +210,7 @@ CORPUS = [
     # ------------------------------------------------------------------ C13 group axioms through the API
     B("c13-negate-L-2", ["C13"], [(ED, "        return Element(scalarmult_element(self.XYTZ, L-1))", "        return Element(scalarmult_element(self.XYTZ, L-2))")], note="F2 re-introduced"),
     B("c13-negate-L-3", ["C13"], [(ED, "        return Element(scalarmult_element(self.XYTZ, L-1))", "        return Element(scalarmult_element(self.XYTZ, L-3))")]),
-    B("c13-add-zero-unknown", ["C13"], [(ED, "        if isinstance(other, (Element, _ZeroElement)):", "        if isinstance(other, Element):")], note="F3 re-introduced"),
+    B("c13-add-zero-unknown", ["C13", "C01"], [(ED, "        if isinstance(other, (Element, _ZeroElement)):", "        if isinstance(other, Element):")], note="F3 re-introduced"),
     B("c13-int-eq-removed", ["C13"], [(GR, """    def __eq__(self, other):
         if not isinstance(other, _Element):
             return NotImplemented
@@ -525,7 +525,7 @@ CORPUS = [
             return start + candidate_int
         return start + (candidate_int >> 1)""")], note="second chance halves the rejected candidate: biased"),
     B("c11-ed-oversampling-40", ["C11"], [(ED, "    oversized = int(binascii.hexlify(entropy_f(32+32)), 16)", "    oversized = int(binascii.hexlify(entropy_f(32+8)), 16)")], tests="killed"),
-    B("c11-int-random-scalar-small-range", ["C11", "C04"], [(GR, "        return unbiased_randrange(0, self.q, entropy_f)", "        return unbiased_randrange(0, min(self.q, 2**64), entropy_f)")]),
+    B("c11-int-random-scalar-small-range", ["C11"], [(GR, "        return unbiased_randrange(0, self.q, entropy_f)", "        return unbiased_randrange(0, min(self.q, 2**64), entropy_f)")]),
     B("c11-finish-consumes-entropy", ["C11"], [(SP, """        self.inbound_message = self._extract_message(inbound_side_and_message)
 """, """        self.inbound_message = self._extract_message(inbound_side_and_message)
         self._nonce = self.entropy_f(16)
@@ -567,6 +567,110 @@ CORPUS = [
     s_hex = fmt_str % num
     s = binascii.unhexlify(s_hex.encode("ascii"))""", """    s = num.to_bytes(num_bytes, "big")""")]),
     N("c15-scalar-decoder-assert-removed", [(ED, "    assert len(s) == 32, len(s)\n", "")], props=["C15"], note="DESIGN 4.15: scalar-decoder asserts are not obligations"),
+    # ------------------------------------------------------------------ C14 derivations
+    B("c14-password-stripped", ["C02", "C03"], [(SP, "        self.pw_scalar = params.group.password_to_scalar(password)", "        self.pw_scalar = params.group.password_to_scalar(password.strip())")],
+      silent=["C08"], note="passwords differing only in surrounding whitespace collide"),
+    B("c14-long-password-prehashed", ["C14", "C03"], [(GR, """    oversized = expand_password(pw, scalar_size_bytes+16)""", """    if len(pw) > 64:
+        pw = hashlib.sha256(pw).digest()
+    oversized = expand_password(pw, scalar_size_bytes+16)""")], note="only passwords longer than one hash block are affected"),
+    B("c14-hkdf-length-plus-8", ["C14"], [(GR, "    oversized = expand_password(pw, scalar_size_bytes+16)", "    oversized = expand_password(pw, scalar_size_bytes+8)")], tests="killed"),
+    B("c14-info-string-changed", ["C14"], [(GR, '        info=b"SPAKE2 arbitrary element"', '        info=b"SPAKE2 arbitrary Element"')], tests="killed"),
+    B("c14-salt-nonempty", ["C14"], [(GR, '''        salt=b"",
+        info=b"SPAKE2 pw"
+''', '''        salt=b"\\0",
+        info=b"SPAKE2 pw"
+''')], tests="killed"),
+    B("c14-int-element-mod-q", ["C14"], [(GR, "        h = bytes_to_number(processed_seed) % self.p", "        h = bytes_to_number(processed_seed) % self.q")], tests="killed"),
+    B("c14-ed-cofactor-4", ["C14"], [(ED, "        P8 = P.scalarmult(8)", "        P8 = P.scalarmult(4)")], tests="killed"),
+    B("c14-ed-torsion-assert-removed", ["C14"], [(ED, "        assert is_extended_zero(P8.scalarmult(L).XYTZ)\n", "")]),
+    B("c14-ed-identity-skip-removed", ["C14"], [(ED, """        if is_extended_zero(P8.XYTZ):
+            continue
+""", "")]),
+    B("c14-symmetric-seed-perturbed-integer", ["C14"], [(GR, """        processed_seed = expand_arbitrary_element_seed(seed,
+                                                       self.element_size_bytes)""", """        if seed == b"symmetric":
+            seed = b"Symmetric"
+        processed_seed = expand_arbitrary_element_seed(seed,
+                                                       self.element_size_bytes)""")], note="no vector pins S of the integer groups"),
+    B("c14-ed-start-at-1", ["C14"], [(ED, "    for plus in itertools.count(0):", "    for plus in itertools.count(1):")], tests="killed"),
+    B("c14-ed-x-sign-from-seed", ["C14"], [(ED, "        Pa = [x,y_plus] # no attempt", "        if hseed[0] & 1: x = Q-x\n        Pa = [x,y_plus] # no attempt")], tests="killed"),
+    B("c14-int-cofactor-guard-removed", ["C14"], [(GR, "        assert r * self.q == self.p - 1\n", "")]),
+    N("c14-hkdf-positional-module-alias", [(GR, """def expand_password(data, num_bytes):
+    return hkdf.HKDF(""", """def expand_password(data, num_bytes):
+    H = hkdf.HKDF
+    return H(""")]),
+    N("c14-ed-length-constant-folded", [(ED, "    hseed = expand_arbitrary_element_seed(seed, int((256/8)+16))", "    hseed = expand_arbitrary_element_seed(seed, 48)")]),
+    # ------------------------------------------------------------------ C01 agreement
+    B("c01-B-unblinding-hook-wrong", ["C01", "C03"], [(SP, """    side = SideB
+    def my_blinding(self): return self.params.N
+    def my_unblinding(self): return self.params.M""", """    side = SideB
+    def my_blinding(self): return self.params.N
+    def my_unblinding(self): return self.params.N""")], tests="killed"),
+    B("c01-unblind-sign-lost-symmetric", ["C01"], [(SP, "        pw_unblinding = self.my_unblinding().scalarmult(-self.pw_scalar)",
+                                                   "        pw_unblinding = self.my_unblinding().scalarmult(self.pw_scalar if self.side == SideSymmetric else -self.pw_scalar)")], tests="killed"),
+    B("c01-shared-element-uses-pw-scalar", ["C01", "C03"], [(SP, "        K_elem = inbound_elem.add(pw_unblinding).scalarmult(self.xy_scalar)",
+                                                            "        K_elem = inbound_elem.add(pw_unblinding).scalarmult(self.xy_scalar + (self.pw_scalar >> 250))")],
+      note="differs only for password scalars >= 2^250 (never on the 160-bit group, rarely on Ed25519)"),
+    B("c01-restore-recomputes-with-negated-scalar", ["C01", "C08"], [(SP, """        self.xy_scalar = g.bytes_to_scalar(xy_scalar_bytes)
+        self.xy_elem = g.Base.scalarmult(self.xy_scalar)
+        self.compute_outbound_message()
+        return self
+
+# add ECC""", """        self.xy_scalar = g.bytes_to_scalar(xy_scalar_bytes)
+        self.xy_elem = g.Base.scalarmult(-self.xy_scalar)
+        self.compute_outbound_message()
+        return self
+
+# add ECC""")], tests="killed"),
+    N("c01-K-distributed-form", [(SP, "        K_elem = inbound_elem.add(pw_unblinding).scalarmult(self.xy_scalar)",
+                                  "        K_elem = inbound_elem.scalarmult(self.xy_scalar).add(self.my_unblinding().scalarmult(-self.pw_scalar * self.xy_scalar))")],
+      props=["C01", "C03", "C05", "C06", "C02", "C17"], note="x*In + (-w*x)*U"),
+    N("c01-hooks-moved-to-base-as-attributes", [(SP, """    def my_blinding(self): return self.params.S
+    def my_unblinding(self): return self.params.S
+""", """    def my_blinding(self):
+        p = self.params
+        return p.S
+    def my_unblinding(self):
+        return self.my_blinding()
+""")]),
+    # ------------------------------------------------------------------ C04 message hides the password
+    B("c04-scalar-truncated-32bit", ["C04"], [(SP, "        self.xy_scalar = g.random_scalar(self.entropy_f)", "        self.xy_scalar = g.random_scalar(self.entropy_f) % (2**32)")],
+      note="keys still agree; messages cover a tiny part of the subgroup"),
+    B("c04-scalar-xor-password", ["C04"], [(SP, "        self.xy_scalar = g.random_scalar(self.entropy_f)", "        self.xy_scalar = g.random_scalar(self.entropy_f) ^ (self.pw_scalar & 0xff)")]),
+    B("c04-id-length-mixed-into-blinding", ["C04", "C03"], [(SP, "        pw_blinding = self.my_blinding().scalarmult(self.pw_scalar)",
+                                                            "        pw_blinding = self.my_blinding().scalarmult(self.pw_scalar + len(getattr(self, 'idA', b'')))")],
+      note="both ends agree as long as they use the same idA; the message now depends on the identity"),
+    B("c04-base-term-dropped", ["C04", "C01", "C03"], [(SP, "        message_elem = self.xy_elem.add(pw_blinding)", "        message_elem = pw_blinding")], tests="killed"),
+    B("c04-blinding-uses-base", ["C04", "C03"], [(SP, "    def my_blinding(self): return self.params.S\n    def my_unblinding(self): return self.params.S",
+                                                    "    def my_blinding(self): return self.params.group.Base\n    def my_unblinding(self): return self.params.group.Base")], tests="killed",
+      note="blinding with the generator: x + w is recoverable"),
+    B("c04-persisted-scalar-differs", ["C04", "C08"], [(SP, """             "xy_scalar": hexlify(g.scalar_to_bytes(self.xy_scalar)).decode("ascii"),
+             }
+        return d
+
+    @classmethod
+    def _deserialize_from_dict(klass, d, params):
+        def""", """             "xy_scalar": hexlify(g.scalar_to_bytes(self.xy_scalar ^ 1)).decode("ascii"),
+             }
+        return d
+
+    @classmethod
+    def _deserialize_from_dict(klass, d, params):
+        def""")], tests="killed"),
+    # ------------------------------------------------------------------ C02 binding
+    B("c02-password-lowercased-for-scalar", ["C02", "C03"], [(SP, "        self.pw_scalar = params.group.password_to_scalar(password)", "        self.pw_scalar = params.group.password_to_scalar(password.lower())")],
+      note="blinding scalar is case-insensitive while the transcript is not"),
+    B("c02-whole-message-hashed", ["C02", "C17"], [(SP, "        self.inbound_message = self._extract_message(inbound_side_and_message)\n",
+                                                    "        self.inbound_message = self._extract_message(inbound_side_and_message)\n        self._raw_in = inbound_side_and_message\n"),
+                                                   (SP, "    def Y_msg(self): return self.inbound_message\n", "    def Y_msg(self): return self._raw_in\n")], tests="killed"),
+    B("c02-key-path-skips-ids-for-symmetric-like", ["C02", "C17"], [(SP, """        return finalize_SPAKE2(self.idA, self.idB,""", """        if self.idA == self.idB:
+            return finalize_SPAKE2(b"", b"",
+                                   self.X_msg(), self.Y_msg(), K_bytes, self.pw)
+        return finalize_SPAKE2(self.idA, self.idB,""")], note="equal identities are not bound (('a','a') and ('b','b') give the same key)"),
+    N("c02-transcript-uses-reencoded-element", [(SP, "    def Y_msg(self): return self.inbound_message\n", "    def Y_msg(self): return self.params.group.bytes_to_element(self.inbound_message).to_bytes()\n")],
+      props=["C02", "C05", "C06"], note="re-encoding equals the raw payload under canonical decoding"),
+    # ------------------------------------------------------------------ C03 wire conformance
+    B("c03-side-byte-lowercase", ["C03", "C06"], [(SP, 'SideA = b"A"', 'SideA = b"a"')], tests="killed"),
+    B("c03-element-size-off", ["C03", "C15"], [("ed25519_group.py", "Ed25519Group.element_size_bytes = 32", "Ed25519Group.element_size_bytes = 33")]),
     # ------------------------------------------------------------------ C16 isolation
     B("c16-blinding-cache-on-params", ["C16"], [(SP, """        pw_blinding = self.my_blinding().scalarmult(self.pw_scalar)
 """, """        cache = self.params.__dict__.setdefault("_blind_cache", {})
